@@ -88,11 +88,15 @@ Qed.
    truncated, filled and renamed into place like a fresh one.  What the tree looks like afterwards,
    by lookups and membership. *)
 Definition no_under (p : bytes) (f : fsT) : Prop := forall e0, In e0 f -> under p (fst e0) = false.
+Definition tmp_ok (a : bytes) (f : fsT) : Prop :=
+  fs_get f (tmpp Lc a) = None \/ exists o, fs_get f (tmpp Lc a) = Some (File o).
 Record cfg_written (a X : bytes) (f0 f' : fsT) : Prop := mkCW {
   cw_cfg : fs_get f' (cfgp Lc a) = Some (File X);
-  cw_other : forall q, q <> cfgp Lc a -> q <> tmpp Lc a -> under (tmpp Lc a) q = false -> fs_get f' q = fs_get f0 q;
+  cw_other : forall q, q <> cfgp Lc a -> q <> tmpp Lc a -> fs_get f' q = fs_get f0 q;
   cw_in : forall q nd, In (q, nd) f' -> q = cfgp Lc a \/ (q <> tmpp Lc a /\ In (q, nd) f0);
-  cw_nu : no_under (tmpp Lc a) f0 }.
+  cw_keep : forall q nd, In (q, nd) f0 -> q <> cfgp Lc a -> q <> tmpp Lc a -> In (q, nd) f';
+  cw_nu : no_under (tmpp Lc a) f0;
+  cw_tmp : tmp_ok a f0 }.
 
 Lemma closed_file_none f ds x : closed f -> plains ds -> fs_get f (pa ds) = Some (File x) ->
   forall r, plains r -> r <> [] -> fs_get f (pa (ds ++ r)) = None.
@@ -125,32 +129,40 @@ Proof.
   apply (proj1 (fs_get_None _ _) En m Hin).
 Qed.
 
-Lemma write_cfg_lookup e l a f0 : e_pretend e = false -> plain a -> l_path l = layer_path c a ->
-  fs_clean f0 -> closed f0 ->
+Lemma write_cfg_lookup_gen e l a f0 : e_pretend e = false -> plain a -> l_path l = layer_path c a ->
+  (tmp_ok a f0 -> no_under (tmpp Lc a) f0) ->
   post (fun w => w_fs w = f0) (write_layerfile e l) (fun _ w' => cfg_written a (chunks_of l) f0 (w_fs w')).
 Proof.
-  intros Hnp Pa Ep Hc0 Hcl0. unfold write_layerfile. rewrite (layerconfig_path_eq c Lc HLc HL l a Ep Pa).
+  intros Hnp Pa Ep Hnu. unfold write_layerfile. rewrite (layerconfig_path_eq c Lc HLc HL l a Ep Pa).
   assert (Htc : (tmpp Lc a) <> (cfgp Lc a)) by (apply tmpp_ne_cfgp; assumption).
   apply (post_write_atomically _ _ (fun x w =>
-           no_under (tmpp Lc a) f0 /\ fs_get (w_fs w) (tmpp Lc a) = Some (File x) /\
+           (tmp_ok a f0 /\ no_under (tmpp Lc a) f0) /\ fs_get (w_fs w) (tmpp Lc a) = Some (File x) /\
            (forall q, q <> (tmpp Lc a) -> fs_get (w_fs w) q = fs_get f0 q) /\
-           (forall q nd, q <> (tmpp Lc a) -> In (q, nd) (w_fs w) -> In (q, nd) f0)));
+           (forall q nd, q <> (tmpp Lc a) -> In (q, nd) (w_fs w) <-> In (q, nd) f0)));
     [exact Hnp| | |]; rewrite ?tmp_path_eq.
   - intros w w' Ew E. cbn [op_result] in E. unfold on_fres in E. rewrite Ew in E.
     destruct (open_trunc f0 (tmpp Lc a)) as [f'|] eqn:Eo; [|discriminate]. injection E as <-. cbn [set_fs w_fs].
     apply open_trunc_shape in Eo as [[Eg ->]|(o & Eg & ->)].
-    + split; [apply no_under_tmp; auto|]. split; [rewrite fs_get_app, Eg; cbn [fs_get]; now rewrite beq_refl|]. split.
+    + assert (Hok : tmp_ok a f0) by now left.
+      split; [split; [exact Hok|now apply Hnu]|]. split; [rewrite fs_get_app, Eg; cbn [fs_get]; now rewrite beq_refl|]. split.
       * intros q Hq. rewrite fs_get_app. destruct (fs_get f0 q); [reflexivity|]. cbn [fs_get].
         destruct (beq (tmpp Lc a) q) eqn:E; [apply beq_true in E; congruence|reflexivity].
-      * intros q nd Hq Hin. apply in_app_or in Hin as [Hin|[Hin|[]]]; [exact Hin|]. injection Hin as <- _. congruence.
-    + split; [apply no_under_tmp; eauto|]. split; [rewrite fs_get_set; now rewrite beq_refl|]. split.
+      * intros q nd Hq. split.
+        -- intros Hin. apply in_app_or in Hin as [Hin|[Hin|[]]]; [exact Hin|]. injection Hin as <- _. congruence.
+        -- intros Hin. apply in_or_app. now left.
+    + assert (Hok : tmp_ok a f0) by (right; eauto).
+      split; [split; [exact Hok|now apply Hnu]|]. split; [rewrite fs_get_set; now rewrite beq_refl|]. split.
       * intros q Hq. rewrite fs_get_set. destruct (beq (tmpp Lc a) q) eqn:E; [apply beq_true in E; congruence|reflexivity].
-      * intros q nd Hq Hin. apply fs_set_In in Hin as [[-> _]|Hin]; [congruence|exact Hin].
+      * intros q nd Hq. split.
+        -- intros Hin. apply fs_set_In in Hin as [[-> _]|Hin]; [congruence|exact Hin].
+        -- intros Hin. now apply fs_set_In_other.
   - intros x ch w (H0 & H1 & H2 & H3). cbn [set_fs w_fs]. unfold append_file, lstat. rewrite H1.
     split; [exact H0|]. split; [rewrite fs_get_set; now rewrite beq_refl|]. split.
     + intros q Hq. rewrite fs_get_set. destruct (beq (tmpp Lc a) q) eqn:E; [apply beq_true in E; congruence|now apply H2].
-    + intros q nd Hq Hin. apply fs_set_In in Hin as [[-> _]|Hin]; [congruence|now apply H3].
-  - intros w w' (H0 & H1 & H2 & H3) E. cbn [op_result] in E. unfold on_fres in E.
+    + intros q nd Hq. rewrite <- (H3 q nd Hq). split.
+      * intros Hin. apply fs_set_In in Hin as [[-> _]|Hin]; [congruence|exact Hin].
+      * intros Hin. now apply fs_set_In_other.
+  - intros w w' ((Hok & H0) & H1 & H2 & H3) E. cbn [op_result] in E. unfold on_fres in E.
     destruct (rename (w_fs w) (tmpp Lc a) (cfgp Lc a)) as [f'|] eqn:Er; [|discriminate]. injection E as <-. cbn [set_fs w_fs].
     apply rename_shape in Er as [[E _]|(na & _ & _ & -> & _)]; [contradiction|].
     set (F := filter (not_at (cfgp Lc a)) (w_fs w)).
@@ -162,7 +174,7 @@ Proof.
       destruct (beq q (tmpp Lc a)) eqn:Eq; [apply beq_true in Eq; subst q; unfold under in Ha|].
       - rewrite (tmpp_not_root a Pa) in Ha. apply prefixb_spec in Ha as (t & Et).
         apply (f_equal (@length _)) in Et. rewrite !app_length in Et. cbn in Et. lia.
-      - apply beq_false in Eq. pose proof (H0 (q, m) (H3 q m Eq Hin)) as Hn. cbn [fst] in Hn. congruence. }
+      - apply beq_false in Eq. pose proof (H0 (q, m) (proj1 (H3 q m Eq) Hin)) as Hn. cbn [fst] in Hn. congruence. }
     assert (Hsfx : rel_suffix (tmpp Lc a) (tmpp Lc a) = []).
     { unfold rel_suffix. rewrite (tmpp_not_root a Pa). apply skipn_all. }
     constructor.
@@ -172,18 +184,35 @@ Proof.
       * intros e0 Hin Ha _. now apply Hau.
       * intros [q m] Hin _. cbn [fst]. rewrite Hsfx, app_nil_r. apply filter_In in Hin as [_ Hin].
         unfold not_at in Hin. cbn [fst] in Hin. now apply negb_true_iff, beq_false in Hin.
-    + intros q Hq1 Hq2 Hq3. rewrite fs_get_move_out.
-      * rewrite HF by exact Hq1. now apply H2.
-      * intros e0 Hin Ha. rewrite (Hau e0 Hin Ha), Hsfx, app_nil_r. congruence.
-      * unfold at_or_under. rewrite Hq3, orb_false_r. now apply beq_false.
+    + intros q Hq1 Hq2. destruct (under (tmpp Lc a) q) eqn:Hq3.
+      * (* nothing lives below the temporary name, before or after *)
+        rewrite fs_get_move_src.
+        -- symmetry. apply fs_get_None. intros n Hin. pose proof (H0 _ Hin) as Hn. cbn [fst] in Hn. congruence.
+        -- unfold at_or_under. now rewrite Hq3, orb_true_r.
+        -- intros e0 Hin Ha. rewrite (Hau e0 Hin Ha), Hsfx, app_nil_r. congruence.
+      * rewrite fs_get_move_out.
+        -- rewrite HF by exact Hq1. now apply H2.
+        -- intros e0 Hin Ha. rewrite (Hau e0 Hin Ha), Hsfx, app_nil_r. congruence.
+        -- unfold at_or_under. rewrite Hq3, orb_false_r. now apply beq_false.
     + intros q nd Hin. apply in_map_iff in Hin as ([p m] & E & Hin). unfold move_entry in E. cbn [fst snd] in E.
       destruct (at_or_under (tmpp Lc a) p) eqn:Ea.
       * left. pose proof (Hau (p, m) Hin Ea) as Ep'. cbn [fst] in Ep'. subst p. rewrite Hsfx, app_nil_r in E. now injection E as <- _.
       * injection E as <- <-. right. apply filter_In in Hin as [Hin _].
         assert (p <> (tmpp Lc a)) by (intros ->; unfold at_or_under in Ea; now rewrite beq_refl in Ea).
         split; [assumption|now apply H3].
+    + intros q nd Hin Hq1 Hq2. apply in_map_iff. exists (q, nd). split.
+      * unfold move_entry. cbn [fst snd]. destruct (at_or_under (tmpp Lc a) q) eqn:Ea; [|reflexivity]. exfalso.
+        unfold at_or_under in Ea. apply orb_true_iff in Ea as [Ea|Ea]; [apply beq_true in Ea; congruence|].
+        pose proof (H0 _ Hin) as Hn. cbn [fst] in Hn. congruence.
+      * apply filter_In. split; [now apply H3|]. unfold not_at. cbn [fst]. now apply negb_true_iff, beq_false.
     + exact H0.
+    + exact Hok.
 Qed.
+
+Lemma write_cfg_lookup e l a f0 : e_pretend e = false -> plain a -> l_path l = layer_path c a ->
+  fs_clean f0 -> closed f0 ->
+  post (fun w => w_fs w = f0) (write_layerfile e l) (fun _ w' => cfg_written a (chunks_of l) f0 (w_fs w')).
+Proof. intros Hnp Pa Ep Hc0 Hcl0. apply write_cfg_lookup_gen; auto. intros Hok. now apply no_under_tmp. Qed.
 
 Lemma rebase_exact_final f0 f' a b content ms es :
   NoDup (map fst f0) -> plain a -> read_file f0 (cfgp Lc a) = Some content ->
@@ -192,14 +221,14 @@ Lemma rebase_exact_final f0 f' a b content ms es :
   cfg_written a (concat (layerfile_chunks b ms es)) f0 f' ->
   C02.rebase_exact c f0 f' a b = true.
 Proof.
-  intros ND Pa Hrd Ems Ees Hb Hm He [G1 G2 G3 Hnu]. unfold C02.rebase_exact. fold lcf.
+  intros ND Pa Hrd Ems Ees Hb Hm He [G1 G2 G3 _ Hnu _]. unfold C02.rebase_exact. fold lcf.
   rewrite (cfg_path_eq c Lc HLc HL a Pa), tmp_path_eq.
   set (cfg := cfgp Lc a) in *. set (X := concat (layerfile_chunks b ms es)) in *.
   assert (Hex : fs_get f0 cfg <> None) by (apply (read_file_exists f0 cfg content); exact Hrd).
   apply andb_true_iff. split; [apply andb_true_iff; split|].
   - apply forallb_forall. intros [p nd] Hin. cbn [fst snd]. destruct (beq p cfg) eqn:E; [reflexivity|].
     destruct (beq p (tmpp Lc a)) eqn:E2; [reflexivity|]. cbn [orb]. apply beq_false in E, E2.
-    rewrite G2; [|exact E|exact E2|exact (Hnu _ Hin)].
+    rewrite G2; [|exact E|exact E2].
     rewrite (nodup_fs_get f0 p nd ND Hin). cbn [opt_beq]. apply node_beq_refl.
   - apply forallb_forall. intros [p nd] Hin. cbn [fst]. unfold exists_, lstat.
     apply G3 in Hin as [->|[_ Hin]].
@@ -244,14 +273,6 @@ Qed.
 End D.
 
 (* ------------------------------------------------------------------ run level *)
-Definition no_stale_tmp (c : cfgT) (f : fsT) (cmd : command) : bool :=
-  match cmd with
-  | CRename a _ =>
-      forallb (fun l' => negb ((beq (l_name l') a || beq (l_base l') a)
-                               && exists_ f (layerconfig_path l' ++ tmp_suffix))) (C02.layers_of c f)
-  | _ => true
-  end.
-
 Theorem rebase_exact_run e c um a b0 s :
   cfg_ok c = true -> fs_ok c (w_fs (s_w s)) = true -> LC.nodup_paths (map fst (w_fs (s_w s))) = true ->
   e_pretend e = false ->
